@@ -54,6 +54,11 @@ def pipeline_run(ctx, w, stream, oid):
 
 def run(ctx):
     rnd = random.Random(ctx.seed)
+    # which decoder serves a record is a function of the fed object's OWN code table (spec/Dispatch_MC.tla): design
+    # model-checked with its misplaced-memo variants, behaviours replayed on real parser and dict objects
+    from . import dispatch
+    dispatch.model_check(ctx, ['memoOnClass'])
+    dispatch.run(ctx)
     d = 4 if ctx.quick else 5
     ctx.expect_ok(run_tlc('Context_MC', CFG % (d, '1', PATHS), ctx.workdir, name='ctx_paths_d%d' % d, timeout=7200))
     ctx.expect_ok(run_tlc('Context_MC', CFG % (d + 1 if ctx.quick else 6, '1', STRINGS), ctx.workdir,
